@@ -40,6 +40,7 @@ func ReadDump(r io.Reader, fn func(*State) error) (int, error) {
 	var curVar string
 	var sb strings.Builder
 	n := 0
+	complete := true // the last state read was closed by its blank line
 	flushVar := func() {
 		if cur != nil && curVar != "" {
 			cur.Raw[curVar] = sb.String()
@@ -62,6 +63,7 @@ func ReadDump(r io.Reader, fn func(*State) error) (int, error) {
 		line, err := br.ReadString('\n')
 		if len(line) > 0 {
 			l := strings.TrimRight(line, "\n")
+			complete = l == "" && strings.HasSuffix(line, "\n")
 			switch {
 			case strings.HasPrefix(l, "State ") && strings.HasSuffix(l, ":"):
 				if e := flushState(); e != nil {
@@ -92,6 +94,10 @@ func ReadDump(r io.Reader, fn func(*State) error) (int, error) {
 		if err != nil {
 			return n, err
 		}
+	}
+	if cur != nil && !complete {
+		// the writer was stopped in the middle of a state (TLC killed by its timeout): not a state to replay
+		return n, fmt.Errorf("dump ends inside state %d", cur.N)
 	}
 	if e := flushState(); e != nil {
 		return n, e
